@@ -24,6 +24,9 @@ func checkC13(r *Run) {
 	r.NotDecided = append(r.NotDecided, "all histories × all subsets of failing FileSys calls as a dynamic statement", "entries the FileSys returns for a partial walk (never bound; outside the statement)", "what a FileSys implementation does inside Clunk/Remove")
 
 	ts, fns := runSessionTypestate(p, true)
+	// the table is read only by the getter that hands out bound, locked fids, written only by the placeholder
+	// constructor, and emptied only by the unbind-release helper: every other way in or out loses track of an entry
+	c08TableAccess(r, p, ts)
 	for _, fn := range fns {
 		r.SawFn(fnName(fn))
 	}
